@@ -859,6 +859,31 @@ class BasebandSignal(RadioSignal):
             meta=meta,
         )
 
+    # A baseband signal is critically sampled: the channel bandwidth IS the
+    # sample rate, also when either is assigned later.
+    @property
+    def sample_rate(self):
+        """Sample rate of the signal (equal to the channel bandwidth)."""
+        return self._sample_rate
+
+    @sample_rate.setter
+    def sample_rate(self, sample_rate):
+        Signal.sample_rate.fset(self, sample_rate)
+        if hasattr(self, "_chan_bw"):
+            self._chan_bw = self._sample_rate
+
+    @property
+    def chan_bw(self):
+        """Channel bandwidth (equal to the sample rate)."""
+        return self._chan_bw
+
+    @chan_bw.setter
+    def chan_bw(self, chan_bw):
+        RadioSignal.chan_bw.fset(self, chan_bw)
+        if not u.isclose(self._chan_bw, self._sample_rate, rtol=1e-14):
+            self._chan_bw = self._sample_rate
+            raise ValueError("chan_bw of a baseband signal equals its sample_rate.")
+
     def to_intensity(self):
         """Absolute square of signal.
 
